@@ -33,14 +33,14 @@ MANIFEST = {
                      "ValueFromContacted, AcceptedDistinct, ErrIffBelowMin and NoPanic on DHT.tla for find-node, join, get and put "
                      "over a 4-node (quick) / 5-node (thorough) universe with every initial list of <= 3 peers (duplicates "
                      "included) and every answer (any peer list incl. cyclic, self-referential, duplicated, fabricated; fail / "
-                     "accept flags; value classes) of every contacted node, then evaluates the same operators on what the real "
+                     "accept flags; value classes nil / well-formed / malformed / empty-but-non-nil against the caller's Validate chosen by the case) of every contacted node, then evaluates the same operators on what the real "
                      "DHTFindNode/DHTJoin/DHTGet/DHTPut did on TLC-generated cases (exhaustive 3-node family, random 6-10 node "
                      "topologies, networks of real DHTNode handlers with dead and adversarial members). A VIOLATION is printed "
                      "only when an operator is false on real observations.",
                 note="Bounded: universes of 3-10 abstract nodes (honest networks of 3-24 nodes quick, up to 600 thorough); the "
                      "adversary is stateless per case (what a node answers depends on its id only) in the replayed cases, stateful "
                      "in the model. 'Closest' is accepted if it is the nearest among asked, answering or (put) accepting nodes. "
-                     "Responder caps (HandleFindNode limit, closerNodes) are compared as drift only. Trusts TLC, the Json/IOUtils "
+                     "A get value counts as validated only if the case's Validate accepts the exact returned bytes (evaluated by the harness). Responder caps (HandleFindNode limit, closerNodes) and contact-set differences are compared as drift only. Trusts TLC, the Json/IOUtils "
                      "community modules and the Go toolchain.",
                 ref="5 (C20), 3.10"),
 }
@@ -98,7 +98,7 @@ def selftest_orig(stats):
 
 
 def generate(tier, stats):
-    """All generator jobs concurrently; returns {family name: [case dict]}."""
+    """All generator jobs concurrently; returns futures of (family name, [case dict])."""
     T = TIERS[tier]
 
     def sim(i, cfg, traces, depth):
@@ -118,21 +118,22 @@ def generate(tier, stats):
             raise core.Inconclusive("exhaustive generator printed %d cases for %d states" % (len(cs), res.distinct))
         return "small", cs
 
-    with ThreadPoolExecutor(max_workers=6) as ex:
-        futs = [ex.submit(sim, i, *s) for i, s in enumerate(T["sim"])]
-        if T["small"]:
-            futs.append(ex.submit(small))
-        fams = dict(f.result() for f in futs)
-    cid = 0
-    for name in sorted(fams):
-        for c in fams[name]:
-            cid += 1
-            c["id"] = cid
-            if c["fam"] == "adv":
-                c["emb"] = EMBEDDINGS[cid % len(EMBEDDINGS)]
-                c["tseed"] = core.seed() * 1000003 + cid
-        stats["cases"][name] = len(fams[name])
-    return fams
+    ex = ThreadPoolExecutor(max_workers=6)
+    futs = [ex.submit(sim, i, *s) for i, s in enumerate(T["sim"])]
+    if T["small"]:
+        futs.append(ex.submit(small))
+    ex.shutdown(wait=False)
+    return futs
+
+
+def number_cases(stats, name, cases, base):
+    """Case ids are unique over the run and do not depend on scheduling: family sim<k> starts at k * 1 000 000, small at 9 000 000."""
+    for k, c in enumerate(cases):
+        c["id"] = base + k + 1
+        if c["fam"] == "adv":
+            c["emb"] = EMBEDDINGS[c["id"] % len(EMBEDDINGS)]
+            c["tseed"] = core.seed() * 1000003 + c["id"]
+    stats["cases"][name] = len(cases)
 
 
 def case_hash(c):
@@ -223,16 +224,19 @@ def run_pipeline(tier, replay_case=None):
         if TIERS[tier]["selftest"]:
             side_futs.append(side.submit(selftest_orig, stats))
         fbin = side.submit(core.go_build, "dhtreplay")
-        fams = generate(tier, stats)
+        gen_futs = generate(tier, stats)
         binp = fbin.result()
+        # replay + validation of each family as soon as it is generated, one after the other (one JVM at
+        # a time is fastest here); the model-checking jobs run alongside
+        from concurrent.futures import as_completed
+        for f in as_completed(gen_futs):
+            name, cases = f.result()
+            number_cases(stats, name, cases, (9 if name == "small" else int(name[3:])) * 1000000)
+            replay_validate(binp, d, name, cases, stats, violations, seen)
     else:
         binp = core.go_build("dhtreplay")
-        fams = {"replay": [replay_case]}
         stats["cases"]["replay"] = 1
-    # replay + validation of the families one after the other (one JVM at a time is fastest here);
-    # the model-checking jobs run alongside
-    for name in sorted(fams, key=lambda n: len(fams[n])):
-        replay_validate(binp, d, name, fams[name], stats, violations, seen)
+        replay_validate(binp, d, "replay", [replay_case], stats, violations, seen)
     for f in side_futs:
         f.result()
     side.shutdown()
